@@ -86,6 +86,14 @@ def _file2books(*fpaths):
     ) for fp in fpaths}
 
 
+def _escape_text(v):
+    # Text that would be imported as a formula, an error or a blank.
+    if isinstance(v, str) and not isinstance(v, XlError) and (
+            v.upper() == '#EMPTY' or Cell.parser.is_formula(v)):
+        return '="%s"' % v.replace('"', '""')
+    return v
+
+
 class ExcelModel:
     compile_class = sh.DispatchPipe
 
@@ -469,10 +477,7 @@ class ExcelModel:
             for k, d in self.dsp.default_values.items()
             if not isinstance(k, sh.Token)
         }
-        nodes = {
-            k: isinstance(v, str) and v.startswith('=') and '="%s"' % v or v
-            for k, v in nodes.items()
-        }
+        nodes = {k: _escape_text(v) for k, v in nodes.items()}
         nodes = {
             k: '#EMPTY' if v == [[sh.EMPTY]] else v
             for k, v in nodes.items()
